@@ -35,8 +35,27 @@ def abstract(expr):
 def atoms_at(node, stop):
     out = []
     for e, pol in flatten_guards(guards_at(node, stop=stop)):
+        e, pol = positive(e, pol)
         out.append((abstract(e), pol))
     return out
+
+
+_FLIP = {ast.IsNot: ast.Is, ast.NotEq: ast.Eq, ast.NotIn: ast.In}
+
+
+def positive(e, pol):
+    """Normal form of an atom: negative comparison operators become their
+    positive twin with the polarity flipped (x is not None, True) ->
+    (x is None, False)."""
+    while isinstance(e, ast.UnaryOp) and isinstance(e.op, ast.Not):
+        e, pol = e.operand, not pol
+    if isinstance(e, ast.Compare) and len(e.ops) == 1 and \
+            type(e.ops[0]) in _FLIP:
+        e = ast.copy_location(ast.Compare(
+            left=e.left, ops=[_FLIP[type(e.ops[0])]()],
+            comparators=e.comparators), e)
+        pol = not pol
+    return e, pol
 
 
 def check(res, rule, f, node, what, allowed, required=(), key=None):
